@@ -145,11 +145,16 @@ def run(ctx):
     # the periodic images really are the lattice translates of the placements (C14 obligations, necessary here)
     from .C14 import import_into
     import_into(ctx, 'LATTICE')
+    from .C12 import shape_transform_obligations
+    from .C12 import ALL_SHAPES
+    shape_transform_obligations(ctx, 'SHAPE', ALL_SHAPES[2:])
     ts = f.one(self_adt=ADT, trait='State', name='total_shapes')
     if rep.check(ts is not None, 'R1', 'anchor:total_shapes', ADT, 'found', 'total_shapes not found', 'anchor-lost'):
         ok, why = total_shapes_is_sum_of_multiplicities(f, ts)
         rep.check(ok, 'R1', 'molecule-count-is-sum-of-multiplicities', where(ts), why, why)
-    rep.note('molecule energy = sum over the full component product is C13.R5; pair-energy asymmetry is the known finding C13/R4')
+    from .C13 import _molecule
+    _molecule(ctx)       # molecule energy = sum over the full component product (C13.R5), necessary here
+    rep.note('pair-energy asymmetry for unlike particles is the known finding C13/R4')
 
 
 def total_shapes_is_sum_of_multiplicities(f, ts):
